@@ -56,6 +56,9 @@ def addNew (s : Snap) (n : Node) (f2o : SlotMap) (syn : Node) (data : String) : 
         let s1 := allocClass s F syn data
         match shape s1 enodeF, preShape s1 enodeF with
         | some (sh2, bij2), some n1 =>
+          -- the strong shape of the canonical variant, renamed, is the strong shape again (what `handle_pending` stores is
+          -- what `add` looked up); a state in which it is not is outside the modelled path
+          if !(sh2 == sh) then none else
           (match lookupShape s1 sh2 bij2 with
            | some _ => none
            | none =>
